@@ -537,3 +537,422 @@ Proof.
     + left. split; [exact C1|]. rewrite C1, Z.eqb_refl in *. destruct Hfl as [Hfl|Hfl]; apply Z.eqb_eq in Hfl; [exact Hfl|congruence].
     + right. split; [exact C1|]. destruct Hfl as [Hfl|Hfl]; apply Z.eqb_eq in Hfl; [congruence|exact Hfl].
 Qed.
+
+(* ---------- Part D: all pools of a block ---------- *)
+(* a third property of the combinators: the pool store changes only by writes under the context's asset *)
+Lemma set_set {V} k (v v' : V) (m : store V) : set k v (set k v' m) = set k v m.
+Proof.
+  induction m as [|[k' w] m IH]; cbn [set]; [rewrite Z.ltb_irrefl, Z.eqb_refl; reflexivity|].
+  destruct (k' <? k) eqn:E1; cbn [set]; [rewrite E1, IH; reflexivity|].
+  destruct (k' =? k) eqn:E2; cbn [set]; rewrite Z.ltb_irrefl, Z.eqb_refl; reflexivity.
+Qed.
+Definition PF (c c' : mctx) : Prop :=
+  c_asset c' = c_asset c /\
+  (ms_pools (c_s c') = ms_pools (c_s c) \/ exists p', ms_pools (c_s c') = set (c_asset c) p' (ms_pools (c_s c))).
+Lemma PF_refl c : PF c c. Proof. split; [reflexivity|left; reflexivity]. Qed.
+Lemma PF_trans c1 c2 c3 : PF c1 c2 -> PF c2 c3 -> PF c1 c3.
+Proof.
+  intros (A1 & A2) (B1 & B2). split; [congruence|]. rewrite A1 in B2.
+  destruct A2 as [A2|(p1 & A2)]; destruct B2 as [B2|(p2 & B2)]; rewrite B2, A2; [left; reflexivity|right; eauto|right; eauto|right; exists p2; apply set_set].
+Qed.
+Definition pframes {A} (f : PM A) : Prop := forall c c' o, f c = (c', o) -> PF c c'.
+Lemma pf_ret {A} (x : A) : pframes (ret x). Proof. intros c c' o H. unfold ret in H. injection H as <- _. apply PF_refl. Qed.
+Lemma pf_lift {A} (x : Outcome A) : pframes (lift x). Proof. intros c c' o H. unfold lift in H. injection H as <- _. apply PF_refl. Qed.
+Lemma pf_failM {A} : pframes (@failM A). Proof. apply pf_lift. Qed.
+Lemma pf_getc : pframes getc. Proof. intros c c' o H. unfold getc in H. injection H as <- _. apply PF_refl. Qed.
+Lemma pf_bind {A B} (m : PM A) (f : A -> PM B) : pframes m -> (forall a, pframes (f a)) -> pframes (bindP m f).
+Proof.
+  intros Hm Hf c c' o H. unfold bindP in H. destruct (m c) as [c1 o1] eqn:E. specialize (Hm _ _ _ E).
+  destruct o1 as [a|e|]; [eapply PF_trans; [exact Hm|eapply Hf; exact H]|injection H as <- _; exact Hm|injection H as <- _; exact Hm].
+Qed.
+Lemma pf_if {A} (b : bool) (f g : PM A) : pframes f -> pframes g -> pframes (if b then f else g).
+Proof. destruct b; auto. Qed.
+Lemma pf_modc f : (forall c, PF c (f c)) -> pframes (modc f).
+Proof. intros Hf c c' o H. unfold modc in H. injection H as <- _. apply Hf. Qed.
+Lemma pf_upd_pool f : pframes (upd_pool f).
+Proof.
+  unfold upd_pool. apply pf_bind; [apply pf_getc|]. intros c0. apply pf_bind; [apply pf_lift|]. intros p.
+  apply pf_modc. intros c. split; [reflexivity|left; reflexivity].
+Qed.
+Lemma pf_upd_mtp f : pframes (upd_mtp f).
+Proof.
+  unfold upd_mtp. apply pf_bind; [apply pf_getc|]. intros c0. apply pf_bind; [apply pf_lift|]. intros p.
+  apply pf_modc. intros c. split; [reflexivity|left; reflexivity].
+Qed.
+Lemma pf_set_pool : pframes set_pool.
+Proof. unfold set_pool. apply pf_modc. intros c. split; [reflexivity|right; exists (c_pool c); reflexivity]. Qed.
+Lemma pf_set_mtp : pframes set_mtp.
+Proof. unfold set_mtp. apply pf_modc. intros c. destruct (c_id c =? 0); (split; [reflexivity|left; reflexivity]). Qed.
+Lemma pf_destroy_mtp : pframes destroy_mtp.
+Proof.
+  unfold destroy_mtp. apply pf_bind; [apply pf_getc|]. intros c0. destruct (find_mtp _ _ _); [|apply pf_failM].
+  apply pf_modc. intros c. split; [reflexivity|left; reflexivity].
+Qed.
+Lemma pf_bank_send from to d x : pframes (bank_send from to d x).
+Proof.
+  unfold bank_send. apply pf_bind; [apply pf_getc|]. intros c0. destruct (send _ _ _ _ _); [|apply pf_failM].
+  apply pf_modc. intros c. split; [reflexivity|left; reflexivity].
+Qed.
+Create HintDb pf discriminated.
+#[export] Hint Resolve pf_ret pf_lift pf_failM pf_getc pf_upd_pool pf_upd_mtp pf_set_pool pf_set_mtp pf_destroy_mtp pf_bank_send : pf.
+Ltac pf_step :=
+  first
+    [ solve [auto 1 with pf nocore]
+    | simple apply @pf_bind; [|intro]
+    | simple apply @pf_if
+    | match goal with |- pframes (match ?x with _ => _ end) => destruct x; cbn beta iota zeta end ].
+Ltac pf_auto := repeat pf_step.
+Lemma pf_take_fund_payment amount asset pct fund : pframes (take_fund_payment amount asset pct fund).
+Proof. unfold take_fund_payment. pf_auto. Qed.
+#[export] Hint Resolve pf_take_fund_payment : pf.
+Lemma pf_take_out_custody : pframes take_out_custody.
+Proof. unfold take_out_custody. pf_auto. Qed.
+#[export] Hint Resolve pf_take_out_custody : pf.
+Lemma pf_incremental i : pframes (incremental_interest_payment i).
+Proof. unfold incremental_interest_payment. pf_auto. Qed.
+Lemma pf_handle_interest i : pframes (handle_interest_payment i).
+Proof.
+  unfold handle_interest_payment. apply pf_bind; [apply pf_getc|]. intros c0. destruct (mp_incr _); [|pf_auto].
+  intros c c' o H. destruct (incremental_interest_payment i c) as [c1 o1] eqn:E. pose proof (pf_incremental i _ _ _ E) as F.
+  destruct o1; injection H as <- _; exact F.
+Qed.
+#[export] Hint Resolve pf_handle_interest : pf.
+Lemma pf_add_block_interest fin : pframes (add_block_interest fin).
+Proof. unfold add_block_interest. pf_auto. Qed.
+#[export] Hint Resolve pf_add_block_interest : pf.
+Lemma pf_process_interest : pframes process_interest. Proof. unfold process_interest. pf_auto. Qed.
+Lemma pf_repay r tf : pframes (repay r tf). Proof. unfold repay. pf_auto. Qed.
+#[export] Hint Resolve pf_repay : pf.
+Lemma pf_mid_epoch_interest : pframes mid_epoch_interest. Proof. unfold mid_epoch_interest. pf_auto. Qed.
+#[export] Hint Resolve pf_mid_epoch_interest : pf.
+Lemma pf_force_close adm tf : pframes (force_close_long adm tf). Proof. unfold force_close_long. pf_auto. Qed.
+Theorem pf_process_mtp : pframes process_mtp.
+Proof.
+  intros c c' o H. unfold process_mtp in H.
+  destruct (process_interest c) as [cA oA] eqn:EA. pose proof (pf_process_interest _ _ _ EA) as FA.
+  destruct oA as [u|e|]; [|injection H as <- _; apply PF_refl|injection H as <- _; apply PF_refl].
+  destruct (force_close_long false true cA) as [cF oF] eqn:EF. pose proof (pf_force_close _ _ _ _ _ EF) as FF.
+  destruct oF as [r|e|]; injection H as <- _; [eapply PF_trans; eassumption|exact FA|apply PF_refl].
+Qed.
+
+(* one step of the pass, everything it keeps *)
+Lemma inv2_step a st p addr id m rest c' o :
+  Inv2 a st p ((addr, id, m) :: rest) -> process_mtp (mkCtx st p m a addr id) = (c', o) ->
+  Inv2 a (c_s c') (c_pool c') rest /\ PF (mkCtx st p m a addr id) c' /\ gap_eq (mkCtx st p m a addr id) c' /\
+  ms_params (c_s c') = ms_params st /\ ms_height (c_s c') = ms_height st.
+Proof.
+  intros (HL & Hw & Hn & Hnb & Heb & Bn & Be & Hep & Hpct & Hfm & Hnd & Hall) E.
+  destruct (Hall addr id m (or_introl eq_refl)) as (Hf & Hon & Hid & Hmod).
+  pose proof (custody_covered a st p addr id m HL Hw Hn Hnb Heb Bn Be Hf Hon) as Hfunds.
+  destruct (process_mtp_step a st p m addr id c' o E Hep HL Hf Hon Hid Hpct Hfunds) as [HL' _].
+  pose proof (process_mtp_gap a st p m addr id c' o E Hep HL Hf Hon Hid Hpct Hfunds Hfm Hmod) as HG.
+  pose proof HG as (G1 & G2 & G3 & _).
+  pose proof (frames_process_mtp _ _ _ E) as (F1 & F2 & F3 & F4 & F5). cbn [c_s c_addr c_id c_asset] in *.
+  destruct (F5 Hid Hw) as (_ & Hw' & Hfr).
+  assert (Hgood : Good (mkCtx st p m a addr id)).
+  { split; [exact Hid|]. split; [exact Hw|]. split; [exact (Hn _ _ _ Hf)|]. split; [exact Hnb|]. split; [exact Heb|exact Hn]. }
+  destruct (kg_process_mtp _ _ _ E Hgood) as (_ & _ & (_ & Hnb' & Heb' & Hn')).
+  unfold Gn, Ge in G1, G2. cbn [c_s c_pool c_asset] in G1, G2. rewrite G3 in G2. cbn [c_asset] in G2.
+  cbn [map key_of] in Hnd. apply NoDup_cons_iff in Hnd. destruct Hnd as [Hnin Hnd'].
+  split; [|split; [exact (pf_process_mtp _ _ _ E)|split; [exact HG|split; [exact F3|exact F4]]]].
+  split; [exact HL'|]. split; [exact Hw'|]. split; [exact Hn'|]. split; [exact Hnb'|]. split; [exact Heb'|].
+  split; [lia|]. split; [lia|].
+  split; [unfold epoch_position in *; rewrite F3, F4; exact Hep|].
+  split; [unfold pct_ok in *; rewrite F3; exact Hpct|].
+  split; [unfold funds_not_module in *; rewrite F3; exact Hfm|].
+  split; [exact Hnd'|].
+  intros addr' id' m' Hin. destruct (Hall addr' id' m' (or_intror Hin)) as (Hf' & Hon' & Hid' & Hmod').
+  split; [|auto]. rewrite Hfr; [exact Hf'|].
+  destruct (Z.eq_dec addr' addr) as [Ea|]; [|left; assumption]. destruct (Z.eq_dec id' id) as [Ei|]; [|right; assumption].
+  exfalso. apply Hnin. rewrite <- Ea, <- Ei. change (addr', id') with (key_of (addr', id', m')). apply in_map. exact Hin.
+Qed.
+
+(* what the whole pass keeps, between its first and its last state *)
+Definition pass_rel (a : Z) (st : mstate) (p : mpool) (st' : mstate) (p' : mpool) : Prop :=
+  (ms_pools st' = ms_pools st \/ exists q, ms_pools st' = set a q (ms_pools st)) /\
+  bal (ms_bank st') CLP_MODULE ROWAN - (q_nb p' + q_nc p') = bal (ms_bank st) CLP_MODULE ROWAN - (q_nb p + q_nc p) /\
+  bal (ms_bank st') CLP_MODULE a - (q_eb p' + q_ec p') = bal (ms_bank st) CLP_MODULE a - (q_eb p + q_ec p) /\
+  (forall d, d <> ROWAN -> d <> a -> bal (ms_bank st') CLP_MODULE d = bal (ms_bank st) CLP_MODULE d) /\
+  ms_params st' = ms_params st /\ ms_height st' = ms_height st.
+
+Lemma bb_loop_full a : forall ms st p closed st' p' closed',
+  fold_left (bb_step a) ms (st, p, closed) = (st', p', closed') -> Inv2 a st p ms ->
+  Inv2 a st' p' [] /\ pass_rel a st p st' p'.
+Proof.
+  induction ms as [|[[addr id] m] rest IH]; intros st p closed st' p' closed' H HI.
+  - cbn in H. injection H as <- <- <-. split; [exact HI|]. unfold pass_rel. repeat split; auto.
+  - cbn [fold_left] in H. unfold bb_step at 2 in H.
+    destruct (process_mtp (mkCtx st p m a addr id)) as [c1 o1] eqn:E.
+    destruct (inv2_step a st p addr id m rest c1 o1 HI E) as (HI1 & (P1 & P2) & (G1 & G2 & G3 & G4) & E3 & E4).
+    destruct (IH _ _ _ _ _ _ H HI1) as (HIf & (Q1 & Q2 & Q3 & Q4 & Q5 & Q6)).
+    split; [exact HIf|]. cbn [c_s c_pool c_asset] in *. unfold Gn, Ge in G1, G2. cbn [c_s c_pool c_asset] in G1, G2. rewrite G3 in G2. cbn [c_asset] in G2.
+    unfold pass_rel. split.
+    + destruct P2 as [P2|(q1 & P2)]; destruct Q1 as [Q1|(q2 & Q1)]; rewrite Q1, P2; [left; reflexivity|right; eauto|right; eauto|right; exists q2; apply set_set].
+    + split; [lia|]. split; [lia|]. split; [intros d Hd1 Hd2; rewrite Q4 by assumption; apply G4; assumption|]. split; congruence.
+Qed.
+
+(* a fourth property: the stored positions keep their shape (non-zero id, owner other than the module account, exactly one
+   native asset) *)
+Definition shape (m : mtp) : Prop := on_pool (pool_asset_of m) m.
+Definition stored_shape (s : mstate) : Prop :=
+  forall addr id m, find_mtp s addr id = Some m -> id <> 0 /\ addr <> CLP_MODULE /\ shape m.
+Definition SH (c : mctx) : Prop :=
+  c_addr c <> CLP_MODULE /\ c_id c <> 0 /\ shape (c_mtp c) /\ mtps_wf (c_s c) /\ stored_shape (c_s c).
+Definition keepsSH {A} (f : PM A) : Prop := forall c c' o, f c = (c', o) -> SH c -> SH c'.
+Lemma sh_ret {A} (x : A) : keepsSH (ret x). Proof. intros c c' o H. unfold ret in H. injection H as <- _. auto. Qed.
+Lemma sh_lift {A} (x : Outcome A) : keepsSH (lift x). Proof. intros c c' o H. unfold lift in H. injection H as <- _. auto. Qed.
+Lemma sh_failM {A} : keepsSH (@failM A). Proof. apply sh_lift. Qed.
+Lemma sh_getc : keepsSH getc. Proof. intros c c' o H. unfold getc in H. injection H as <- _. auto. Qed.
+Lemma sh_bind {A B} (m : PM A) (f : A -> PM B) : keepsSH m -> (forall a, keepsSH (f a)) -> keepsSH (bindP m f).
+Proof.
+  intros Hm Hf c c' o H Hc. unfold bindP in H. destruct (m c) as [c1 o1] eqn:E. specialize (Hm _ _ _ E Hc).
+  destruct o1 as [a|e|]; [eapply Hf; eassumption|injection H as <- _; exact Hm|injection H as <- _; exact Hm].
+Qed.
+Lemma sh_if {A} (b : bool) (f g : PM A) : keepsSH f -> keepsSH g -> keepsSH (if b then f else g).
+Proof. destruct b; auto. Qed.
+Lemma sh_modc f : (forall c, SH c -> SH (f c)) -> keepsSH (modc f).
+Proof. intros Hf c c' o H. unfold modc in H. injection H as <- _. apply Hf. Qed.
+Lemma sh_upd_pool f : keepsSH (upd_pool f).
+Proof.
+  unfold upd_pool. apply sh_bind; [apply sh_getc|]. intros c0. apply sh_bind; [apply sh_lift|]. intros p. apply sh_modc. intros c H. exact H.
+Qed.
+Lemma sh_upd_mtp f :
+  (forall m m', f m = Ok m' -> m_coll_asset m' = m_coll_asset m /\ m_cust_asset m' = m_cust_asset m) -> keepsSH (upd_mtp f).
+Proof.
+  intros Hf c c' o H (H1 & H2 & H3 & H4 & H5). unfold upd_mtp in H. unfold bindP at 1 in H. cbn [getc] in H.
+  unfold bindP in H. unfold lift in H. destruct (f (c_mtp c)) as [m'| |] eqn:E; [|injection H as <- _; exact (conj H1 (conj H2 (conj H3 (conj H4 H5))))..].
+  unfold modc in H. injection H as <- _. destruct (Hf _ _ E) as [E1 E2]. split; [exact H1|]. split; [exact H2|]. split; [|split; assumption].
+  cbn. unfold shape, on_pool, pool_asset_of in *. rewrite E1, E2. exact H3.
+Qed.
+Lemma sh_set_pool : keepsSH set_pool. Proof. unfold set_pool. apply sh_modc. intros c H. exact H. Qed.
+Lemma sh_bank_send from to d x : keepsSH (bank_send from to d x).
+Proof.
+  unfold bank_send. apply sh_bind; [apply sh_getc|]. intros c0. destruct (send _ _ _ _ _); [|apply sh_failM]. apply sh_modc. intros c H. exact H.
+Qed.
+Lemma find_put_cases' s addr id m addr' id' m' :
+  find_mtp (put_mtp s addr id m) addr' id' = Some m' -> (addr' = addr /\ id' = id /\ m' = m) \/ find_mtp s addr' id' = Some m'.
+Proof.
+  unfold find_mtp, put_mtp, mtps_of at 1. cbn. destruct (Z.eq_dec addr' addr) as [->|Hne].
+  - rewrite get_set_same. destruct (Z.eq_dec id' id) as [->|Hni]; [rewrite get_set_same; intros [= <-]; auto|].
+    rewrite get_set_other by exact Hni. auto.
+  - rewrite get_set_other by exact Hne. auto.
+Qed.
+Lemma sh_set_mtp : keepsSH set_mtp.
+Proof.
+  unfold set_mtp. apply sh_modc. intros c (H1 & H2 & H3 & H4 & H5). destruct (Z.eqb_spec (c_id c) 0) as [E|E]; [contradiction|].
+  split; [exact H1|]. split; [exact H2|]. split; [exact H3|]. split.
+  - unfold put_mtp. apply mtps_wf_set; [exact H4|apply wf_set, mtps_of_wf; exact H4].
+  - intros addr' id' m' Hf. cbn -[find_mtp put_mtp] in Hf. apply find_put_cases' in Hf. destruct Hf as [(-> & -> & ->)|Hf]; [|exact (H5 _ _ _ Hf)].
+    split; [exact E|]. split; [exact H1|exact H3].
+Qed.
+Lemma sh_destroy_mtp : keepsSH destroy_mtp.
+Proof.
+  unfold destroy_mtp. apply sh_bind; [apply sh_getc|]. intros c0. destruct (find_mtp _ _ _); [|apply sh_failM].
+  apply sh_modc. intros c (H1 & H2 & H3 & H4 & H5). split; [exact H1|]. split; [exact H2|]. split; [exact H3|]. split.
+  - pose proof (mtps_wf_set (c_s c) (c_addr c) (del (c_id c) (mtps_of (c_s c) (c_addr c))) H4 (wf_del _ _ (mtps_of_wf _ _ H4))) as H.
+    unfold mtps_wf in *. exact H.
+  - intros addr' id' m' Hf. unfold find_mtp, mtps_of at 1 in Hf. cbn in Hf.
+    destruct (Z.eq_dec addr' (c_addr c)) as [->|Hne].
+    + rewrite get_set_same in Hf. apply get_del_some in Hf; [|apply mtps_of_wf; exact H4]. exact (H5 _ _ _ Hf).
+    + rewrite get_set_other in Hf by exact Hne. exact (H5 _ _ _ Hf).
+Qed.
+Ltac assets_same :=
+  let m := fresh "m" in let m' := fresh "m'" in let H := fresh "H" in
+  intros m m' H;
+  repeat match type of H with
+         | (if ?b then _ else _) = Ok _ => destruct b
+         | bind _ _ = Ok _ => apply bind_ok_inv in H; let a := fresh "a" in let E := fresh "E" in destruct H as (a & E & H)
+         end;
+  try (injection H as <-); split; reflexivity.
+Create HintDb sh discriminated.
+#[export] Hint Resolve sh_ret sh_lift sh_failM sh_getc sh_upd_pool sh_set_pool sh_set_mtp sh_destroy_mtp sh_bank_send : sh.
+Ltac sh_step :=
+  first
+    [ solve [auto 1 with sh nocore]
+    | simple apply @sh_upd_mtp; assets_same
+    | simple apply @sh_bind; [|intro]
+    | simple apply @sh_if
+    | match goal with |- keepsSH (match ?x with _ => _ end) => destruct x; cbn beta iota zeta end ].
+Ltac sh_auto := repeat sh_step.
+Lemma sh_take_fund_payment amount asset pct fund : keepsSH (take_fund_payment amount asset pct fund).
+Proof. unfold take_fund_payment. sh_auto. Qed.
+#[export] Hint Resolve sh_take_fund_payment : sh.
+Lemma sh_take_out_custody : keepsSH take_out_custody. Proof. unfold take_out_custody. sh_auto. Qed.
+#[export] Hint Resolve sh_take_out_custody : sh.
+Lemma sh_incremental i : keepsSH (incremental_interest_payment i). Proof. unfold incremental_interest_payment. sh_auto. Qed.
+Lemma sh_handle_interest i : keepsSH (handle_interest_payment i).
+Proof.
+  unfold handle_interest_payment. apply sh_bind; [apply sh_getc|]. intros c0. destruct (mp_incr _); [|sh_auto].
+  intros c c' o H Hs. destruct (incremental_interest_payment i c) as [c1 o1] eqn:E. pose proof (sh_incremental i _ _ _ E Hs) as F.
+  destruct o1; injection H as <- _; exact F.
+Qed.
+#[export] Hint Resolve sh_handle_interest : sh.
+Lemma sh_add_block_interest fin : keepsSH (add_block_interest fin). Proof. unfold add_block_interest. sh_auto. Qed.
+#[export] Hint Resolve sh_add_block_interest : sh.
+Lemma sh_process_interest : keepsSH process_interest. Proof. unfold process_interest. sh_auto. Qed.
+Lemma sh_repay r tf : keepsSH (repay r tf). Proof. unfold repay. sh_auto. Qed.
+#[export] Hint Resolve sh_repay : sh.
+Lemma sh_mid_epoch_interest : keepsSH mid_epoch_interest. Proof. unfold mid_epoch_interest. sh_auto. Qed.
+#[export] Hint Resolve sh_mid_epoch_interest : sh.
+Lemma sh_force_close adm tf : keepsSH (force_close_long adm tf). Proof. unfold force_close_long. sh_auto. Qed.
+Theorem sh_process_mtp : keepsSH process_mtp.
+Proof.
+  intros c c' o H Hs. unfold process_mtp in H.
+  destruct (process_interest c) as [cA oA] eqn:EA. pose proof (sh_process_interest _ _ _ EA Hs) as FA.
+  destruct oA as [u|e|]; [|injection H as <- _; exact Hs|injection H as <- _; exact Hs].
+  destruct (force_close_long false true cA) as [cF oF] eqn:EF. pose proof (sh_force_close _ _ _ _ _ EF FA) as FF.
+  destruct oF as [r|e|]; injection H as <- _; [exact FF|exact FA|exact Hs].
+Qed.
+
+Lemma on_pool_shape a m : on_pool a m -> shape m.
+Proof.
+  intros (Ha & [(H1 & H2)|(H1 & H2)]); unfold shape, on_pool, pool_asset_of; rewrite H1.
+  - rewrite Z.eqb_refl, H2. split; [exact Ha|]. left. split; reflexivity.
+  - rewrite H2. destruct (Z.eqb_spec a ROWAN); [contradiction|]. split; [exact Ha|]. right. split; first [reflexivity|assumption].
+Qed.
+
+Lemma loop_shape a : forall ms st p closed st' p' closed',
+  fold_left (bb_step a) ms (st, p, closed) = (st', p', closed') -> Inv2 a st p ms -> stored_shape st -> stored_shape st'.
+Proof.
+  induction ms as [|[[addr id] m] rest IH]; intros st p closed st' p' closed' H HI Hs.
+  - cbn in H. injection H as <- _ _. exact Hs.
+  - cbn [fold_left] in H. unfold bb_step at 2 in H.
+    destruct (process_mtp (mkCtx st p m a addr id)) as [c1 o1] eqn:E.
+    destruct (inv2_step a st p addr id m rest c1 o1 HI E) as (HI1 & _).
+    destruct HI as (_ & Hw & _ & _ & _ & _ & _ & _ & _ & _ & _ & Hall).
+    destruct (Hall addr id m (or_introl eq_refl)) as (_ & Hon & Hid & Hmod).
+    assert (Hsh : SH (mkCtx st p m a addr id)) by (split; [exact Hmod|split; [exact Hid|split; [exact (on_pool_shape _ _ Hon)|split; [exact Hw|exact Hs]]]]).
+    destruct (sh_process_mtp _ _ _ E Hsh) as (_ & _ & _ & _ & Hs1).
+    exact (IH _ _ _ _ _ _ H HI1 Hs1).
+Qed.
+
+(* ---------- the block: every pool in turn ---------- *)
+Definition fnat (p : mpool) : Z := q_nb p + q_nc p.
+Definition MReady (s : mstate) : Prop :=
+  mtps_wf s /\ stored_nonneg s /\ stored_shape s /\ pct_ok s /\ funds_not_module s /\ wf (ms_pools s) /\
+  (forall a p, get a (ms_pools s) = Some p -> a <> ROWAN /\ 0 <= q_nb p /\ 0 <= q_eb p /\ q_eb p + q_ec p <= bal (ms_bank s) CLP_MODULE a) /\
+  sumf fnat (ms_pools s) <= bal (ms_bank s) CLP_MODULE ROWAN.
+
+Lemma tot_nonneg_stored g s : mtps_wf s -> (forall addr id m, find_mtp s addr id = Some m -> 0 <= g m) -> 0 <= tot g s.
+Proof.
+  intros [Ho Hi] Hg. unfold tot. apply sumf_in_nonneg. intros [a inner] Hin. cbn [snd]. apply sumf_in_nonneg. intros [k v] Hk. cbn [snd].
+  apply (Hg a k v). unfold find_mtp, mtps_of. rewrite (in_get _ _ _ Ho Hin). apply in_get; [|exact Hk]. exact (proj1 (Forall_forall _ _) Hi _ Hin).
+Qed.
+
+Lemma mready_bbready s a pool : SumInv s -> MReady s -> epoch_position s = 0 -> get a (ms_pools s) = Some pool -> BBReady s a pool.
+Proof.
+  intros (HP & _) (Hw & Hn & Hsh & Hpct & Hfm & Hwp & Hpools & Hsum) Hep Hg.
+  destruct (Hpools _ _ Hg) as (Ha & Hnb & Heb & Hbe).
+  split; [exact Hw|]. split; [exact Hn|]. split; [exact Hnb|]. split; [exact Heb|]. split.
+  - (* the native side: the other pools' shares are non-negative *)
+    assert (Hnn : forall kv, In kv (ms_pools s) -> 0 <= fnat (snd kv)).
+    { intros [a' p'] Hin. cbn [snd]. pose proof (in_get _ _ _ Hwp Hin) as Hg'. destruct (Hpools _ _ Hg') as (Ha' & Hnb' & _).
+      destruct (HP _ _ Hg' Ha') as (A1 & _). unfold fnat. rewrite A1.
+      pose proof (tot_nonneg_stored (g_nc a') s Hw ltac:(intros ? ? m' Hf'; unfold g_nc; destruct (_ =? _); [exact (Hn _ _ _ Hf')|lia])). lia. }
+    pose proof (sumf_in_le fnat (ms_pools s) (a, pool) Hnn (get_in _ _ _ Hg)) as Hle. cbn [snd] in Hle. unfold fnat in Hle at 1. lia.
+  - split; [exact Hbe|]. split; [exact Hep|]. split; [exact Hpct|]. split; [exact Hfm|]. exact Hsh.
+Qed.
+
+Lemma inv2_start s asset pool new_rate :
+  SumInv s -> get asset (ms_pools s) = Some pool -> asset <> ROWAN -> BBReady s asset pool ->
+  Inv2 asset (bb_s1 s asset pool new_rate) (bb_p1 pool new_rate) (bb_list (bb_s1 s asset pool new_rate) asset).
+Proof.
+  intros (HP & HO) Hg Ha (Hw & Hn & Hnb & Heb & Bn & Be & Hep & Hpct & Hfm & Hpos). destruct new_rate as [[r rn] rd].
+  set (s1 := bb_s1 s asset pool (r, rn, rd)). set (p1 := bb_p1 pool (r, rn, rd)).
+  split.
+  { split; [|split].
+    - eapply (pool_agrees_fields s s1 asset pool p1); try reflexivity. apply (HP _ _ Hg Ha).
+    - intros a' p' Hne Hg' Hr. unfold s1, bb_s1 in Hg'. cbn -[get Store.set] in Hg'. rewrite get_set_other in Hg' by exact Hne.
+      eapply pool_agrees_fields; [reflexivity|reflexivity|reflexivity|reflexivity|reflexivity|apply (HP _ _ Hg' Hr)].
+    - exact HO. }
+  split; [exact Hw|]. split; [exact Hn|]. split; [exact Hnb|]. split; [exact Heb|].
+  split; [exact Bn|]. split; [exact Be|]. split; [exact Hep|]. split; [exact Hpct|]. split; [exact Hfm|].
+  split.
+  - unfold bb_list. apply nodup_map_filter. apply (all_mtps_nodup s Hw).
+  - intros addr id m Hin. unfold bb_list in Hin. apply filter_In in Hin. destruct Hin as [Hin Hfl].
+    pose proof (all_mtps_in s addr id m Hw Hin) as Hf. destruct (Hpos _ _ _ Hf) as (Hid & Hmod & Hon).
+    split; [exact Hf|]. split; [|split; assumption].
+    destruct Hon as (Hpa & Hcases). unfold pool_asset_of in *. split; [exact Ha|].
+    apply orb_true_iff in Hfl. destruct Hcases as [(C1 & C2)|(C1 & C2)].
+    + left. split; [exact C1|]. rewrite C1, Z.eqb_refl in *. destruct Hfl as [Hfl|Hfl]; apply Z.eqb_eq in Hfl; [exact Hfl|congruence].
+    + right. split; [exact C1|]. destruct Hfl as [Hfl|Hfl]; apply Z.eqb_eq in Hfl; [congruence|exact Hfl].
+Qed.
+
+(* one pool's pass hands the next pool's pass what it needs *)
+Theorem begin_block_pool_ready s a pool new_rate s' closed :
+  SumInv s -> MReady s -> epoch_position s = 0 -> get a (ms_pools s) = Some pool ->
+  begin_block_pool s a pool new_rate = Ok (s', closed) ->
+  SumInv s' /\ MReady s' /\ epoch_position s' = 0 /\
+  (forall addr id h, In (addr, id, h) closed -> exists st0, h <= mp_safety (ms_params st0)).
+Proof.
+  intros HS HM Hep Hg H.
+  pose proof (mready_bbready s a pool HS HM Hep Hg) as HB.
+  destruct HM as (Hw & Hn & Hsh & Hpct & Hfm & Hwp & Hpools & Hsum).
+  destruct (Hpools _ _ Hg) as (Ha & Hnb & Heb & Hbe).
+  destruct (begin_block_pool_full s a pool new_rate s' closed HS Hg Ha HB H) as [HS' Hcl].
+  split; [exact HS'|]. split; [|split; [|exact Hcl]].
+  2:{ unfold begin_block_pool in H. destruct (negb (mem a (mp_pools (ms_params s)))); [injection H as <- _; exact Hep|].
+      destruct ((q_nb (pool <| q_bin := 0 |> <| q_bie := 0 |>) =? 0) || (q_eb (pool <| q_bin := 0 |> <| q_bie := 0 |>) =? 0)); [injection H as <- _; exact Hep|].
+      destruct new_rate as [[r rn] rd].
+      match type of H with context [fold_left ?f ?l ?i] => destruct (fold_left f l i) as [[s2 p2] cl] eqn:EF end. injection H as <- _.
+      pose proof (inv2_start s a pool (r, rn, rd) HS Hg Ha HB) as HI.
+      change (fold_left _ _ _) with (fold_left (bb_step a) (bb_list (bb_s1 s a pool (r, rn, rd)) a) (bb_s1 s a pool (r, rn, rd), bb_p1 pool (r, rn, rd), [])) in EF.
+      destruct (bb_loop_full a _ _ _ _ _ _ _ EF HI) as (_ & (_ & _ & _ & _ & E5 & E6)).
+      unfold epoch_position in *. cbn [ms_params ms_height]. change (ms_params (s2 <| ms_pools := set a p2 (ms_pools s2) |>)) with (ms_params s2).
+      change (ms_height (s2 <| ms_pools := set a p2 (ms_pools s2) |>)) with (ms_height s2). rewrite E5, E6. exact Hep. }
+  unfold begin_block_pool in H. destruct (negb (mem a (mp_pools (ms_params s)))).
+  - (* not enabled for margin: only the block interest fields are reset *)
+    injection H as <- _. set (p0 := pool <| q_bin := 0 |> <| q_bie := 0 |>).
+    split; [exact Hw|]. split; [exact Hn|]. split; [exact Hsh|]. split; [exact Hpct|]. split; [exact Hfm|].
+    split; [cbn; apply wf_set; exact Hwp|]. split.
+    + intros a' p' Hg'. cbn -[get Store.set] in Hg'. destruct (Z.eq_dec a' a) as [->|Hne].
+      * rewrite get_set_same in Hg'. injection Hg' as <-. split; [exact Ha|]. split; [exact Hnb|]. split; [exact Heb|exact Hbe].
+      * rewrite get_set_other in Hg' by exact Hne. exact (Hpools _ _ Hg').
+    + cbn -[sumf Store.set]. rewrite sumf_set, Hg. cbn [fopt]. unfold fnat in *. cbn. lia.
+  - destruct ((q_nb (pool <| q_bin := 0 |> <| q_bie := 0 |>) =? 0) || (q_eb (pool <| q_bin := 0 |> <| q_bie := 0 |>) =? 0)).
+    + injection H as <- _. exact (conj Hw (conj Hn (conj Hsh (conj Hpct (conj Hfm (conj Hwp (conj Hpools Hsum))))))).
+    + destruct new_rate as [[r rn] rd].
+      match type of H with context [fold_left ?f ?l ?i] => destruct (fold_left f l i) as [[s2 p2] cl] eqn:EF end. injection H as <- _.
+      pose proof (inv2_start s a pool (r, rn, rd) HS Hg Ha HB) as HI.
+      change (fold_left _ _ _) with (fold_left (bb_step a) (bb_list (bb_s1 s a pool (r, rn, rd)) a) (bb_s1 s a pool (r, rn, rd), bb_p1 pool (r, rn, rd), [])) in EF.
+      pose proof (loop_shape a _ _ _ _ _ _ _ EF HI Hsh) as Hsh2.
+      destruct (bb_loop_full a _ _ _ _ _ _ _ EF HI) as (HIf & (Q1 & Q2 & Q3 & Q4 & Q5 & Q6)).
+      destruct HIf as (_ & Hw2 & Hn2 & Hnb2 & Heb2 & Bn2 & Be2 & _ & Hpct2 & Hfm2 & _ & _).
+      assert (Epools : set a p2 (ms_pools s2) = set a p2 (ms_pools s)).
+      { destruct Q1 as [Q1|(q & Q1)]; rewrite Q1; unfold bb_s1; cbn -[Store.set]; rewrite ?set_set; reflexivity. }
+      split; [exact Hw2|]. split; [exact Hn2|]. split; [exact Hsh2|]. split; [exact Hpct2|]. split; [exact Hfm2|].
+      cbn -[sumf get Store.set fnat]. rewrite Epools.
+      split; [apply wf_set; exact Hwp|]. split.
+      * intros a' p' Hg'. destruct (Z.eq_dec a' a) as [->|Hne].
+        -- rewrite get_set_same in Hg'. injection Hg' as <-. split; [exact Ha|]. split; [exact Hnb2|]. split; [exact Heb2|exact Be2].
+        -- rewrite get_set_other in Hg' by exact Hne. destruct (Hpools _ _ Hg') as (Ha' & B1 & B2 & B3).
+           split; [exact Ha'|]. split; [exact B1|]. split; [exact B2|]. rewrite (Q4 a' Ha' Hne). exact B3.
+      * rewrite sumf_set, Hg. cbn [fopt]. unfold fnat in *. cbn [bb_s1 bb_p1 ms_bank q_nb q_nc] in Q2. cbn in Q2. lia.
+Qed.
+
+Lemma begin_block_pools_ready : forall assets s rates closed0 s' closed,
+  SumInv s -> MReady s -> epoch_position s = 0 ->
+  (forall addr id h, In (addr, id, h) closed0 -> exists st0, h <= mp_safety (ms_params st0)) ->
+  begin_block_pools s assets rates closed0 = Ok (s', closed) ->
+  SumInv s' /\ MReady s' /\ (forall addr id h, In (addr, id, h) closed -> exists st0, h <= mp_safety (ms_params st0)).
+Proof.
+  induction assets as [|a rest IH]; intros s rates closed0 s' closed HS HM Hep Hc H; cbn [begin_block_pools] in H.
+  - injection H as <- <-. auto.
+  - destruct (get a (ms_pools s)) as [p|] eqn:Hg; [|eapply IH; eassumption].
+    destruct (begin_block_pool s a p (hd (0, 0, 1) rates)) as [[s1 cl1]| |] eqn:E; cbn [bind] in H; try discriminate.
+    destruct (begin_block_pool_ready s a p _ s1 cl1 HS HM Hep Hg E) as (HS1 & HM1 & Hep1 & Hc1).
+    cbn [fst snd] in H. eapply (IH s1 (tl rates) (closed0 ++ cl1)); try eassumption.
+    intros addr id h Hin. apply in_app_or in Hin. destruct Hin as [Hin|Hin]; [exact (Hc _ _ _ Hin)|exact (Hc1 _ _ _ Hin)].
+Qed.
+
+(* C13, the margin begin blocker as a whole: at an epoch boundary every margin-enabled pool is passed over in turn; the sums
+   invariant holds afterwards, the state is again ready for the next block's pass, and every liquidated position's health
+   was at or below the safety factor. Outside epoch boundaries nothing happens. *)
+Theorem begin_block_margin_full s rates s' closed :
+  SumInv s -> MReady s -> begin_block_margin s rates = Ok (s', closed) ->
+  SumInv s' /\ MReady s' /\ (forall addr id h, In (addr, id, h) closed -> exists st0, h <= mp_safety (ms_params st0)).
+Proof.
+  intros HS HM H. unfold begin_block_margin in H. destruct (Z.eqb_spec (epoch_position s) 0) as [Hep|_].
+  - eapply begin_block_pools_ready; try eassumption. intros ? ? ? [].
+  - injection H as <- <-. split; [exact HS|]. split; [exact HM|]. intros ? ? ? [].
+Qed.
